@@ -104,11 +104,13 @@ def extract(scratch, gen_dialect=True):
     if gen_dialect:
         u2r = os.path.join(VERIF, "tools/u2r/target/release/u2r")
         if os.path.exists(u2r):
-            out = os.path.join(crate, "src/verif/dialect.rs")
-            r = subprocess.run([u2r, os.path.join(crate, "src"), out], capture_output=True, text=True)
+            r = subprocess.run([u2r, os.path.join(crate, "src")], capture_output=True, text=True)
             if r.returncode != 0:
                 raise Undecided("u2r failed: " + r.stderr[-2000:])
             stats["T4"] = json.loads(r.stdout) if r.stdout.strip().startswith("{") else r.stdout[-500:]
+            stats["dropped"].append("T4 (dialect twins only): Drop impls stay infallible; drop glue of frames between a panic and its handler is not run; the collections' one-line scoped_* wrappers have no twin")
+        else:
+            raise Undecided("u2r is not built (run MANIFEST.setup_cmd: sh /verif/tools/setup.sh)")
     with open(os.path.join(crate, ".cargo-config-note"), "w") as f:
         f.write("scratch copy made by /verif/tools/vdriver.py\n")
     return crate, stats
@@ -144,7 +146,7 @@ def named_obligations_in_sources():
 # running kani
 
 
-def run_kani(crate, harnesses, timeout_s, jobs=16, extra=None):
+def run_kani(crate, harnesses, timeout_s, jobs=16, extra=None, dialect=False):
     out_json = os.path.join(crate, "kani-results.json")
     if os.path.exists(out_json):
         os.remove(out_json)
@@ -161,7 +163,7 @@ def run_kani(crate, harnesses, timeout_s, jobs=16, extra=None):
     if extra:
         cmd += extra
     env = dict(os.environ)
-    env["RUSTFLAGS"] = RUSTFLAGS
+    env["RUSTFLAGS"] = RUSTFLAGS + (" --cfg verif_dialect" if dialect else "")
     env["CARGO_NET_OFFLINE"] = "true"
     env.pop("RUSTUP_TOOLCHAIN", None)
     t0 = time.time()
@@ -221,7 +223,7 @@ def classify(results, wanted, stdout, prop):
                 continue
             info["checks"] += 1
             is_named = bool(NAMED.match(clean))
-            if is_named and prop != "DEV" and not clean.startswith(prop + "_") and not clean.startswith("U_"):
+            if is_named and prop not in ("DEV", "DIA") and not clean.startswith(prop + "_") and not clean.startswith("U_"):
                 # obligation owned by another property (shared harness): not counted here
                 if status == "Failure":
                     refuted.append({"harness": short, "obligation": clean.split(":")[0], "description": clean, "location": where})
@@ -453,7 +455,7 @@ def main():
             undecided.append(("*", str(e)))
             crate = None
         if crate and wanted:
-            r, results, kani_wall, kani_cmd = run_kani(crate, wanted, timeout_s, jobs=args.jobs)
+            r, results, kani_wall, kani_cmd = run_kani(crate, wanted, timeout_s, jobs=args.jobs, dialect=cfg.get("dialect", False))
             stdout_tail = (r.stdout or "")[-8000:]
             logdir = os.environ.get("VERIF_EVIDENCE_DIR", os.path.join(VERIF, "logs"))
             os.makedirs(logdir, exist_ok=True)
@@ -485,7 +487,7 @@ def main():
         own = []
         for it in refuted:
             tag = it["obligation"][:3]
-            if prop == "DEV" or it["obligation"].startswith("kani_safety") or tag == prop or it["obligation"].startswith("U_"):
+            if prop in ("DEV", "DIA") or it["obligation"].startswith("kani_safety") or tag == prop or it["obligation"].startswith("U_"):
                 own.append(it)
             else:
                 # an obligation owned by another property failed in a shared harness: the paths behind
